@@ -427,13 +427,13 @@ class CFG:
     def guards(self, target):
         """Edge-dominators of `target`: branch edges (cond node, label) such
         that every path from entry to target uses that edge."""
-        if target.id not in self.reach(self.entry):
+        if target.id not in self.reach(self.entry, labels_skip=()):
             raise AnalysisError("target unreachable: %r" % target)
         out = []
         for (c, l) in self.branch_edges():
             if c.id == target.id:
                 continue
-            if target.id not in self.reach(self.entry, skip_edge=(c, l)):
+            if target.id not in self.reach(self.entry, skip_edge=(c, l), labels_skip=()):
                 out.append((c, l))
         return out
 
@@ -441,8 +441,8 @@ class CFG:
         """Every path entry->b passes through a."""
         if a.id == b.id:
             return True
-        return b.id not in self.reach(self.entry, skip_nodes=[a]) or \
-            b.id not in self.reach(self.entry)
+        return b.id not in self.reach(self.entry, skip_nodes=[a], labels_skip=()) or \
+            b.id not in self.reach(self.entry, labels_skip=())
 
     def must_pass(self, start, through, to=None):
         """Every path start->to (default: normal exit) passes a node in
@@ -450,7 +450,7 @@ class CFG:
         to = to or self.exit
         if start.id in {n.id for n in through}:
             return True
-        return to.id not in self.reach(start, skip_nodes=through)
+        return to.id not in self.reach(start, skip_nodes=through, labels_skip=())
 
     def reachable(self, a, b, with_exc=False):
         return b.id in self.reach(a, labels_skip=() if with_exc else ("exc",))
